@@ -1094,6 +1094,67 @@ def vc_series_defaults(fns, variants, work):
     return res
 
 
+def vc_header_writes_modes(fns, variants, work):
+    """write_file_patch_header_to: a file patch that carries an old (new) mode gets a line setting the old (new) mode -- one of the
+    keywords the parser maps to that side -- whatever the other side's mode is; the Ok return is reached with a mode unwritten
+    only if that mode is None."""
+    fn = find_fn(fns, r"(^|::)write_file_patch_header_to$")
+    found, reached = [], {"ok_returns": 0, "mode_lines": 0}
+    OLD_KW = (b"old mode ", b"deleted file mode ")
+    NEW_KW = (b"new mode ", b"new file mode ")
+
+    def on_stmt(eng, st, bb, s):
+        m = re.match(r"(_\d+) = const b\"(.*)\";?$", s)
+        if m:
+            try:
+                lit = m.group(2).encode().decode("unicode_escape").encode("latin-1")
+            except Exception:
+                lit = m.group(2).encode("utf-8", "replace")
+            side = "old" if any(k in lit for k in OLD_KW) else ("new" if any(k in lit for k in NEW_KW) else None)
+            if side:
+                st.ghost = st.ghost | {"fmt:" + side}
+        elif re.match(r"_0 = Result::<\(\), .*>::Ok\(", s):
+            reached["ok_returns"] += 1
+            for side in ("old", "new"):
+                if ("wrote:" + side) in st.ghost:
+                    continue
+                d = st.store.get("ghost:%s_disc" % side)
+                if d is None:
+                    found.append({"bb": bb, "stmt": s[:100], "what": "the header is finished without the file patch's %s mode having been consulted" % side, "model": {}, "trace": list(st.trace[-10:])})
+                    continue
+                ok, model = eng.feasible(st, [d == 1])
+                eng.record_query("%s %s mode unwritten" % (bb, side), list(st.pc) + [d == 1])
+                if ok:
+                    found.append({"bb": bb, "stmt": s[:100], "what": "a file patch with %s %s mode is written without a line for it (the mode is lost by write-then-parse)" % ("an" if side == "old" else "a", side),
+                                  "model": model_values(model, ("c_", "in_")), "trace": list(st.trace[-14:])})
+
+    def on_call(eng, st, bb, site, stmt, dst, callee, args, nxt):
+        if re.search(r"Write>::write_fmt$", callee):
+            for side in ("old", "new"):
+                if ("fmt:" + side) in st.ghost:
+                    reached["mode_lines"] += 1
+                    st.ghost = (st.ghost - {"fmt:" + side}) | {"wrote:" + side}
+        return None
+
+    def after_call(eng, st, bb, site, stmt, dst, callee, args, argv):
+        m = re.search(r"FilePatch::<.*>::(old|new)_permissions$", callee)
+        if m and dst:
+            dpath, _ = eng.resolve(st, dst)
+            st.store["ghost:%s_disc" % m.group(1)] = eng.read_path(st, dpath + "#disc", "isize")
+
+    eng = Engine(fns, fn, variants, hooks={"on_stmt": on_stmt, "on_call": on_call, "after_call": after_call})
+    seeds = set()
+    for bb, stmts in fn.blocks.items():
+        for s_ in stmts:
+            m = callm(s_, need_dst=True)
+            if m and re.search(r"(old|new)_permissions$", m.group(2)):
+                seeds.add(m.group(1))
+    eng.seeds = seeds
+    eng.run()
+    return summarize(eng, found, {"ok_returns_reached": reached["ok_returns"], "mode_lines_written": reached["mode_lines"]}, work, "c12h",
+                     witness_ok=reached["ok_returns"] > 0 and reached["mode_lines"] >= 2, witness_note="%r" % reached)
+
+
 def vc_closest_match_space(fns, variants, work):
     """find_closest_match (hunk writer), for slices of ANY length: the outer range is exactly 0..(a.len + b.len), the inner one
     0..min(i + 1, a.len); when the search is exhausted the result is (a.len, b.len) (everything left is flushed as changed);
